@@ -1,6 +1,6 @@
 \* C02, quick tier. Object values deviate from the base object in <= 2 fields (Devs = 2).
 \* One run checks the theorems on every case and prints shapes + grid + cases (-workers 1).
-\* Measured: 10,998 cases, 21,996 distinct states, depth 2; 1 worker 13-20 s.
+\* Measured: 13,136 cases (42 shapes), 26,272 distinct states, depth 2; 1 worker 18-21 s.
 CONSTANTS
   Devs = 2
   Emit = TRUE
